@@ -265,10 +265,10 @@ def run_one(item, pid, wdir, profiles):
     name, lines, meta = item
     hp = H.write_hist(os.path.join(wdir, name + ".hist"), lines)
     res = {"name": name, "path": hp, "meta": meta, "oracle": [], "diff": None, "status": {}}
-    model = H.run_model(hp, timeout=120)
+    model = H.run_model(hp, timeout=120, retry=True)
     traces = {}
     for prof in profiles:
-        impl = H.run_impl(hp, oracle=True, profile=prof, timeout=meta.get("timeout", 4))
+        impl = H.run_impl(hp, oracle=True, profile=prof, timeout=meta.get("timeout", 4), retry=True)
         traces[prof] = impl["lines"]
         res["status"][prof] = impl["status"]
         res["oracle"] += [l + " [%s build]" % prof for l in impl["oracle"] if l.split(" ", 2)[1] == pid]
